@@ -307,6 +307,19 @@ class SymMap:
         return f"SymMap({self.has})"
 
 
+class SymSet:
+    """set with symbolic membership: has: Array Elem -> Bool"""
+    __slots__ = ("has", "elem_ty", "oid")
+
+    def __init__(self, has, elem_ty):
+        self.has = has
+        self.elem_ty = elem_ty
+        self.oid = next(_oid)
+
+    def __repr__(self):
+        return f"SymSet({self.has})"
+
+
 class GenV:
     """Generator object: wraps the executor's own python generator (lazy, resumable)."""
 
